@@ -1051,7 +1051,7 @@ def atom_level(ctx, specs):
         F = coq_opts(sp)
         for a in ATOMS:
             ser.append(("run_c12_ser %s %s" % (F, V.atom_to_coq(a)), DeepHash(a, hasher=ident, **kw)[a], {"atom": repr(a), "options": name_of(sp)}))
-        sel = allpairs if ctx.thorough else rng.sample(allpairs, 150)
+        sel = allpairs if ctx.thorough else rng.sample(allpairs, 110)
         for a, b in sel:
             he = DeepHash(a, **kw)[a] == DeepHash(b, **kw)[b]
             try:
